@@ -135,6 +135,12 @@ def liveNode (xs : List Slot) (u : Nat) : Bool := xs.any (fun x => x.node == u &
 def LI (xs : List Slot) (idx : Nat) (snap : List Nat) : Prop :=
   snap.filter (liveNode xs) = ((xs.drop idx).filter (fun x => x.state == .connected)).map (·.node)
 
+/-- ... for an iterator that may be the `end` captured for an empty list (nothing will be found,
+    the snapshot was empty) -/
+def LIo (xs : List Slot) : Option Nat → List Nat → Prop
+  | none, snap => snap = []
+  | some idx, snap => LI xs idx snap
+
 def Sorted (xs : List Slot) : Prop := xs.Pairwise (fun a b => a.node < b.node)
 
 /-! ### the invariant -/
@@ -174,14 +180,14 @@ structure Abs (m : State) (s : SState) : Prop where
     ∀ x ∈ d.slots, x.state ≠ .disconnected → (x.state = .connected ↔ x.node < t)
   startLe : ∀ e g t, (s.sig e g).outerStart = some t → t ≤ s.clock
 
-abbrev MStack := Stack Nat Nat (Nat × Nat) (List Nat)
+abbrev MStack := Stack Nat (Option Nat) (Nat × Nat) (List Nat)
 
 /-- the emission loops in progress, innermost first, against the frame stack -/
 def Cursors (m : State) : MStack → List Frame → Prop
   | [], [] => True
-  | ((fid, idx), (eg, snap)) :: K, f :: fs =>
+  | ((fid, pos), (eg, snap)) :: K, f :: fs =>
     fid = fs.length ∧ f.data = eg ∧ (∀ u ∈ snap, u < m.nextNode) ∧
-    ((m.emitters eg.1).isSome → ∀ d, m.data eg.1 eg.2 = some d → LI d.slots idx snap) ∧
+    ((m.emitters eg.1).isSome → ∀ d, m.data eg.1 eg.2 = some d → LIo d.slots pos snap) ∧
     Cursors m K fs
   | _, _ => False
 
